@@ -449,9 +449,25 @@ pub fn run_check(prop: &dyn Prop, tier: Tier, extra: impl FnOnce(&mut Agg, &mut 
         if k.repro.is_empty() {
             continue;
         }
-        let Some(out) = prop.run_rendered(&mut env, &k.stream, &k.repro) else {
-            agg.infra_errors.push(format!("known finding {} has no rendered replay", k.id));
-            continue;
+        let out = if k.signature.starts_with("abort:") {
+            // the reproducer kills the process: replay it in a subprocess
+            let exe = std::env::current_exe().expect("current exe");
+            let st = Command::new(&exe).args(["known1", id, &k.id]).stdout(Stdio::null()).stderr(Stdio::null()).status();
+            use std::os::unix::process::ExitStatusExt;
+            match st {
+                Ok(s) if s.signal().is_some() => CaseOut::fail(k.repro.clone(), format!("abort:signal {} [{}]", s.signal().unwrap_or(0), k.id), "process died"),
+                Ok(_) => CaseOut::pass(k.repro.clone(), false),
+                Err(e) => {
+                    agg.infra_errors.push(format!("cannot replay known finding {}: {e}", k.id));
+                    continue;
+                }
+            }
+        } else {
+            let Some(out) = prop.run_rendered(&mut env, &k.stream, &k.repro) else {
+                agg.infra_errors.push(format!("known finding {} has no rendered replay", k.id));
+                continue;
+            };
+            out
         };
         agg.evals += 1;
         match (&out.verdict, k.status.as_str()) {
@@ -755,4 +771,18 @@ pub fn shrink_file(prop: &dyn Prop, file: &str) -> i32 {
     v["rendered"] = json!(reduced);
     let _ = std::fs::write(file, serde_json::to_string_pretty(&v).unwrap_or_default());
     1
+}
+
+/// `bv known1 <PROP> <ID>`: run the reproducer of one known finding in this process (used for
+/// reproducers that abort the process). Exit 1 if it fails, 0 if it passes.
+pub fn known_one(prop: &dyn Prop, id: &str) -> i32 {
+    let known = load_known();
+    let Some(k) = known.iter().find(|k| k.id == id && k.property == prop.id()) else { return 2 };
+    let mut env = Env::new(Tier::Quick, 1);
+    env.replay = true;
+    match prop.run_rendered(&mut env, &k.stream, &k.repro).map(|o| o.verdict) {
+        Some(Verdict::Fail { .. }) => 1,
+        Some(_) => 0,
+        None => 2,
+    }
 }
